@@ -326,7 +326,13 @@ def layerLoop (cfg : Dict) : List (Layer × String) → Trace
       let (evs', r) := layerLoop cfg rest
       (evs ++ evs', r)
 
-def writeCogLayers (a : LArgs) : Trace :=
+/-- `if extra_rio_opts.get("nodata", None) is None: extra_rio_opts.pop("nodata", None)` (fix 4344a79: an explicit
+`nodata=None` means "not given", as in `write_cog`); `repaired = false`: the code as found, which kept the `None` -/
+def layersExtra (repaired : Bool) (extra : Dict) : Dict :=
+  if repaired && extra.getNone "nodata" = .none then extra.without ["nodata"] else extra
+
+/-- `write_cog_layers`; `repaired = false` is the code before 4344a79 (kept for the as-found witness only) -/
+def writeCogLayersWith (repaired : Bool) (a : LArgs) : Trace :=
   match a.layers with
   | [] => ([], .ok .none)
   | first :: _ =>
@@ -339,7 +345,7 @@ def writeCogLayers (a : LArgs) : Trace :=
     match first.g with
     | none => (guard.1, .error .attributeError)        -- `gbox.shape` of `None`
     | some g =>
-      let rio := (defaultCogOpts b g.x g.y first.isFloat [("nodata", first.attrsNodata)]).update a.extra
+      let rio := (defaultCogOpts b g.x g.y first.isFloat [("nodata", first.attrsNodata)]).update (layersExtra repaired a.extra)
       let cfg := firstPassCfg b rio a.windowed a.icomp
       let names := memfilesOvr a.uuid a.layers.length
       match layerLoop cfg (a.layers.zip names) with
@@ -351,6 +357,9 @@ def writeCogLayers (a : LArgs) : Trace :=
         match a.dst with
         | .mem => (guard.1 ++ evs ++ [.envEnter env, .copy src (.anon 0) (("copy_src_overviews", V.bool true) :: rio), .envExit], .ok (.bytesOf (.anon 0)))
         | .path p _ => (guard.1 ++ evs ++ [.envEnter env, .copy src (.named p) (("copy_src_overviews", V.bool true) :: rio), .envExit], .ok (.path p))
+
+/-- `write_cog_layers` as it is on HEAD -/
+def writeCogLayers (a : LArgs) : Trace := writeCogLayersWith true a
 
 /-! ### `write_cog`, `to_cog` -/
 
@@ -369,12 +378,14 @@ structure CArgs where
   uuid : String := "d-f"
   deriving Repr
 
-def writeCogEntry (a : CArgs) : Trace :=
+def writeCogEntryWith (repaired : Bool) (a : CArgs) : Trace :=
   match a.overviews with
   | some ovs =>
     -- `overview_resampling` / `overview_levels` are not forwarded; `nodata` stays inside `extra_rio_opts`
-    writeCogLayers { layers := a.im :: ovs, dst := a.dst, overwrite := a.overwrite, blocksize := a.blocksize,
-                     ovrBlocksize := a.ovrBlocksize, icomp := a.icomp, windowed := a.windowed, extra := a.extra, uuid := a.uuid }
+    let la : LArgs := {
+      layers := a.im :: ovs, dst := a.dst, overwrite := a.overwrite, blocksize := a.blocksize,
+      ovrBlocksize := a.ovrBlocksize, icomp := a.icomp, windowed := a.windowed, extra := a.extra, uuid := a.uuid }
+    writeCogLayersWith repaired la
   | none =>
     let kw := a.extra.getNone "nodata"                               -- `extra_rio_opts.pop("nodata", None)`
     let nodata := if kw = .none then a.im.attrsNodata else kw        -- `if nodata is None: nodata = attrs.get("nodata")`
@@ -386,8 +397,13 @@ def writeCogEntry (a : CArgs) : Trace :=
                  levels := a.levels, ovrBlocksize := a.ovrBlocksize, windowed := a.windowed, icomp := a.icomp,
                  extra := a.extra.without ["nodata"] }
 
+def writeCogEntry (a : CArgs) : Trace := writeCogEntryWith true a
+
 /-- `to_cog(geo_im, …)` = `write_cog(geo_im, ":mem:", …)` (no `overwrite`) -/
 def toCog (a : CArgs) : Trace := writeCogEntry { a with dst := .mem, overwrite := false }
+
+/-- `to_cog` over `write_cog_layers` as found before 4344a79 -/
+def toCogAsFound (a : CArgs) : Trace := writeCogEntryWith false { a with dst := .mem, overwrite := false }
 
 /-! ### what a window-by-window write leaves in the dataset -/
 
